@@ -49,11 +49,7 @@ PERSISTERS = {
     "tracker": P("update_tracker", "new_tracker"),
 }
 
-EXCEPTIONS = {
-    (LS + "node::Node::get_heartbeat", "node"):
-        "prune_invoices / prune_issued_invoices / prune_forwarded_payments return true iff they removed an entry "
-        "(flag set inside the retain closure); get_heartbeat persists under `pruned1 || pruned2 || pruned3`",
-}
+EXCEPTIONS = {}   # (function, class) -> reason; none needed today
 NOT_REQUESTS = ("::new", "::new_from_persistence", "::restore_node", "::restore_nodes", "::new_extended",
                 "::update_velocity_controls", "::new_full")
 
